@@ -2,7 +2,8 @@
 // evaluates the property's postconditions natively against an independent reference parser written from RFC 8259
 // (+ the four documented extensions of src/JSON.hh for the default mode).
 //   driver text  in_de=0|1 g_b0=.. ... g_b7=.. g_len=N            -- the input bytes themselves (leaf scanners, entry points)
-//   driver list|dict  in_de=0|1 g_j.nt=N g_j.tok=0xHEX           -- abstract token stream of a container (children abstract)
+//   driver list|dict  in_de=0|1 g_nt=N g_tok=0xHEX               -- abstract token stream of a container (children abstract)
+//   driver number|string ...                                     -- as text, plus the witness texts of that branch
 //   driver witness                                                 -- fixed witness texts for the known defect classes
 // exit 1 = a postcondition of the property is violated on the real code, 0 = holds, 2 = usage.
 #include <cmath>
@@ -322,14 +323,18 @@ static string from_tokens(uint64_t tok, int nt, bool dict) {
 int main(int argc, char** argv) {
   Args a(argc, argv);
   vector<string> texts;
-  if (a.mode == "text") {
+  if (a.mode == "text" || a.mode == "number" || a.mode == "string") {
     size_t n = a.has("in_size") ? a.u("in_size") : a.u("g_len");
     if (n > 8) n = 8;
     string t;
     for (size_t k = 0; k < n; k++) { char nm[8]; snprintf(nm, sizeof nm, "g_b%zu", k); t.push_back((char)a.u(nm)); }
     texts.push_back(t);
+    // counterexamples of loop-contract proofs pass through havocked loop states: the bytes need not drive the real code down the
+    // same path; the witness texts of the defect classes of this branch are tried as well
+    if (a.mode == "number") for (const char* w : {"5e-1", "1E+2", "1e30", "-2.5e3", "0x1F", "-0", "12.5"}) texts.push_back(w);
+    if (a.mode == "string") for (const char* w : {"\"\\n\"", "\"\\u00e9\"", "\"\\u0100\"", "\"\\q\"", "\"a\\/b\""}) texts.push_back(w);
   } else if (a.mode == "list" || a.mode == "dict") {
-    string t = from_tokens(a.u("g_j.tok"), (int)a.u("g_j.nt"), a.mode == "dict");
+    string t = from_tokens(a.u("g_tok"), (int)a.u("g_nt"), a.mode == "dict");
     if (!t.empty()) texts.push_back(t);
     // the same stream with blanks between the tokens (whitespace is allowed at every token boundary)
     if (!t.empty()) { string s; for (char c : t) { s.push_back(c); if (c != '"' && c != 'k') s.push_back(' '); } texts.push_back(s); }
